@@ -157,6 +157,15 @@ def run(ctx):
         scripts = scripts[:60]
     for _ in range(ctx.scale(40, 400)):
         scripts.append(gen_ops(ctx.rng, ctx.rng.choice([3, 5, 8])))
+    # corpus: histories that exposed defects earlier run first
+    corpus = [
+        # F32: the configuration lost its sampler type (fit rewrote it), resume falls back to the checkpoint's sampler, sampling goes on
+        [("Sample", "ESMC", True), ("Resume",), ("Fit", 1, True, True), ("Resume",), ("Sample", "Importance", True)],
+        [("Sample", "SMC", True), ("Fit", 2, True, True), ("Resume",), ("Sample", "Importance", True), ("Sample", "SMC", False)],
+        # an overwriting fit inside an active context, then SMC again (seeded change C14-a)
+        [("EnterAuto", True), ("Sample", "SMC", False), ("Fit", 2, False, True), ("Sample", "SMC", False), ("ExitAuto",)],
+    ]
+    scripts = corpus + scripts
     root = tempfile.mkdtemp(prefix="c14_", dir=str(common.WORK))
     rows = []
     try:
